@@ -29,6 +29,8 @@ type Disk struct {
 	// CrashAfterWrites: after this many Write calls on a file (0 = never) further
 	// writes are silently lost (the process "crashed"; the handle keeps working).
 	CrashAfterWrites int
+	// Frozen: the machine is "down": Create and Write are accepted and discarded.
+	Frozen bool
 }
 
 func New() *Disk {
@@ -46,6 +48,9 @@ type handle struct {
 // Create truncates (os.Create semantics) and opens for writing.
 func (d *Disk) Create(name string) (simrt.File, error) {
 	simrt.Yield(siteOpen)
+	if d.Frozen {
+		return &handle{d: d, name: name}, nil
+	}
 	d.Files[name] = []byte{}
 	d.Creates[name]++
 	return &handle{d: d, name: name}, nil
@@ -65,6 +70,9 @@ func (h *handle) Write(p []byte) (int, error) {
 		return 0, fs.ErrClosed
 	}
 	d := h.d
+	if d.Frozen {
+		return len(p), nil
+	}
 	d.Writes[h.name]++
 	if d.CrashAfterWrites > 0 && d.Writes[h.name] > d.CrashAfterWrites {
 		simrt.Fault("disk_write_lost_after_crash")
